@@ -581,6 +581,9 @@ impl<'a> Hist<'a> {
         // (a re-entrant call into the same cache is observed only once its caller has returned)
         let listed = if observe { self.observe_listing(f, if executed { Some(slot) } else { None })? } else { None };
         let stats = if observe && self.fns[f].shared() { stats_of(d.reg_name) } else { None };
+        if observe && self.fns[f].shared() && stats.is_none() {
+            return Err(Viol { prop: "C15".into(), sig: sig("C15", "L2", &cfg, "stats-not-found-under-name", ""), what: format!("stats_registry::get({:?}) is None after {} was called", d.reg_name, d.fn_name), detail: json!({"fid": d.fid, "attrs": d.attr_text}) });
+        }
         let n_pred = preds.len() as u32;
         let n_check = checks.len() as u32;
         let m = &mut self.fns[f];
@@ -1188,6 +1191,9 @@ impl<'a> Hist<'a> {
             if !executed && pre.ents.iter().any(|e| e.key != slot as Key && e.val == co.value) {
                 return mk("C02", "served-from-another-tuples-entry", format!("slot {} was served the value cached for another argument tuple", slot));
             }
+            if executed && entry.map_or(false, |e| e.val == co.value) && outs.iter().any(|o| o.why == Why::Stale) {
+                return mk("C11", "stale-value-returned-although-the-body-ran", format!("slot {}: invalidate_on judged the cached value stale and the body ran, yet the call returned the stale value {:x}", slot, co.value));
+            }
             let kind = if executed { "executed-call-returned-other-value" } else if entry.is_some() { "stale-or-wrong-value-served" } else { "value-from-nowhere" };
             return mk("C01", kind, format!("slot {} returned {:x}, expected one of {:?}", slot, co.value, vals.iter().map(|v| format!("{:x}", v)).collect::<Vec<_>>()));
         }
@@ -1197,6 +1203,16 @@ impl<'a> Hist<'a> {
             return mk("C10", "predicate-consulted-wrong-number-of-times", format!("cache_if consulted {} times, expected {}", n_pred, cand[0].n_pred));
         }
         if !cand.iter().any(|o| o.n_check == n_check) {
+            if n_check > cand[0].n_check && entry.is_none() && !m.shared() && (d.limit.is_some() || d.max_memory.is_some()) {
+                // a per-thread cache cannot be listed: that it still holds an entry the model has
+                // evicted shows when invalidate_on is consulted about it
+                let p = match d.policy {
+                    "fifo" | "lru" => "C07",
+                    "lfu" | "arc" | "tlru" => "C08",
+                    _ => "C04",
+                };
+                return mk(p, "entry-the-policy-should-have-evicted-is-still-cached", format!("slot {}: invalidate_on was consulted about an entry that the {} policy should have evicted earlier in this history", slot, d.policy));
+            }
             return mk("C11", "check-consulted-wrong-number-of-times", format!("invalidate_on consulted {} times, expected {}", n_check, cand[0].n_check));
         }
         // 4. content of the cache after the call
